@@ -22,7 +22,8 @@ RULE = (
     "Operation object per slot; twin B, on an identically prepared world, applies a freshly constructed equal "
     "Operation at every apply and performs no other constructions. Oracle (metamorphic): after every apply both "
     "twins agree on accept/reject and on the joint density matrix (<= 1e-9, 1e-2 after displacement/squeezing); "
-    "numpy arrays handed to the library (Kraus lists, operator matrices) are bit-identical afterwards. "
+    "numpy arrays handed to the library (custom operator matrices, Kraus lists, POVM lists; every subsystem of the "
+    "world, through its own entry point) are bit-identical afterwards. "
     "Non-trivial = a slot is applied after another slot of the same operation type (different parameters / "
     "operand types / target dimension) was constructed or applied; distinct = hash of (slots, schedule, layout)."
 )
@@ -152,6 +153,51 @@ def _twin(case, shared: bool):
     return trace
 
 
+def _user_arrays_untouched(case, labels):
+    """numpy arrays handed to the library (custom operators, Kraus lists, POVM lists) must be bit-identical afterwards"""
+    from photon_weave.operation import CustomStateOperationType, Operation, PolarizationOperationType
+    from pw_verif.program import kraus_ops, povm_ops
+
+    run = Run(case["spec"], case["layout"], case["contraction"])
+    w = run.world
+    seed = len(case["events"]) * 7 + len(case["layout"])
+    checked = 0
+    for name, obj in w.subs:
+        kind = w.kind[name]
+        if getattr(obj, "measured", False):
+            continue
+        d = 2 if kind == "pol" else int(obj.dimensions)
+        if d < 1 or d > 6:
+            continue
+        arrays = []
+        try:
+            if kind in ("pol", "custom"):
+                m = np.array(actions.seeded_matrix(seed + checked, d, True))
+                keep = m.copy()
+                typ = PolarizationOperationType.Custom if kind == "pol" else CustomStateOperationType.Custom
+                op = libcall(Operation, typ, operator=m)
+                libcall(obj.apply_operation, op)
+                libcall(obj.apply_operation, op)
+                arrays.append(("custom operator", m, keep))
+            ks = [np.array(k) for k in kraus_ops(seed + checked, d, 2, False)]
+            kkeep = [k.copy() for k in ks]
+            libcall(obj.apply_kraus, ks)
+            arrays += [("Kraus operator", a_, b_) for a_, b_ in zip(ks, kkeep)]
+            if kind == "custom":
+                ms = [np.array(m_) for m_ in povm_ops(seed + checked, d, 2, False)]
+                mkeep = [m_.copy() for m_ in ms]
+                libcall(obj.measure_POVM, ms, destructive=False)
+                arrays += [("measurement operator", a_, b_) for a_, b_ in zip(ms, mkeep)]
+        except LibRaised:
+            labels.append("array-arm-call-raised")
+            continue
+        for what, now, before in arrays:
+            if now.shape != before.shape or now.dtype != before.dtype or not np.array_equal(now, before):
+                raise Violation("user-array-modified", f"a numpy {what} supplied by the caller was modified by the call on {name}", dict(action="arrays", what=what.split()[0], kind=kind))
+        checked += 1
+    labels.append(f"user-arrays-checked:{min(checked, 6)}")
+
+
 def run_case(case):
     try:
         a = _twin(case, shared=True)
@@ -184,6 +230,7 @@ def run_case(case):
         trunc = trunc or any(s["op"]["type"] in ("fock:Displace", "fock:Squeeze") for s in case["slots"])
         if td > (1e-2 if trunc else 1e-9):
             raise Violation("twin-state", f"apply #{i}: re-used Operation object and freshly constructed equal Operation lead to joint states {td:.3e} apart", dict(site, what="state"))
+    _user_arrays_untouched(case, labels)
     types = [s["op"]["type"] for s in case["slots"]]
     nontrivial = applied >= 1 and len(set(types)) < len(types)
     labels.append("slots:" + "+".join(sorted(set(t.split(":")[0] for t in types))))
